@@ -99,11 +99,11 @@ def arithOp {F : Type} [FloatLike F] [Widen F Float] (args : List String) : Opti
         | .ok p => boundTol (F := F) p.mean (crit (critReq conf p.dof)) p.sem
         | _ => 0.0
       let o := tokOutcome (tokInterval tol) out
-      let model := joinBar [o, o, o, o, o, statsToks a]
+      let model := joinBar [o, o, o, o, o, o, statsToks a]
       let c := match needs with
         | r :: _ => crit r
         | [] => 0.0 / 0.0
-      let (cs, sk) := oracleMeanCI (F := F) conf (xs.map FloatLike.toF64) c (impl.take 5)
+      let (cs, sk) := oracleMeanCI (F := F) conf (xs.map FloatLike.toF64) c (impl.take 6)
       { model := model, prop := cs, skipped := sk } }
 
 /-! ### geometric / harmonic -/
@@ -497,8 +497,33 @@ def unpairedOp {F : Type} [FloatLike F] [Widen F Float] (args : List String) : O
         | _ => ["malformed"]
       { model := joinBar [o, o, o, o, o, o, tokOutcome (tokInterval tol) sw], prop := cs ++ csw, skipped := sk } }
 
+/-- `paired_seq F preA preB xs ys => extend outcome | count` on a state that already holds pairs -/
+def pairedSeqOp {F : Type} [FloatLike F] [Widen F Float] (args : List String) : Option OpEval := do
+  let (pa, r) ← pList (α := F) args
+  let (pb, r) ← pList (α := F) r
+  let (xs, r) ← pList (α := F) r
+  let (ys, _) ← pList (α := F) r
+  let p0 := (Paired.empty : Paired F).extendTuple (pa.zip pb)
+  let (o, left) := Paired.extend (W := Float) p0 xs ys
+  pure {
+    run := fun _ impl =>
+      let oT : List Tok := match o with
+        | .ok _ => [.s "ok"]
+        | .err e => tokErr e
+        | .panic t => [.s "panic", .s t]
+      -- oracle: the error carries the lengths of the two sequences of this call
+      let cs :=
+        if xs.length == ys.length then [] else
+        match impl with
+        | e :: _ =>
+          if e == ["err", "DifferentSampleSizes", toString xs.length, toString ys.length] then []
+          else [s!"lengths-of-the-call-not-reported({" ".intercalate e})"]
+        | _ => ["malformed"]
+      { model := joinBar [oT, [.s (toString left.sampleCount)]], prop := cs } }
+
 def statOpF {F : Type} [FloatLike F] [Widen F Float] (op : String) (args : List String) : Option OpEval :=
   match op with
+  | "paired_seq" => pairedSeqOp (F := F) args
   | "arith" => arithOp (F := F) args
   | "geo" => geoOp (F := F) args
   | "harm" => harmOp (F := F) args
